@@ -4,9 +4,9 @@
    [trace h] is the trace of ANY interleaving h of events (threads included,
    completion and notification being separate events); [trace1] is
    single-threaded use. *)
-From Coq Require Import List NArith Bool.
+From Coq Require Import List NArith Bool Arith.
 Import ListNotations.
-From DV Require Import PendingCall.Pending Spec.PendingSpec Proofs.PendingSerial Proofs.PendingLemmas Proofs.PendingRel Proofs.PendingCancel Proofs.PendingFault Proofs.PendingLive Proofs.PendingRefute Proofs.PendingTie.
+From DV Require Import PendingCall.Pending Spec.PendingSpec Proofs.PendingSerial Proofs.PendingLemmas Proofs.PendingRel Proofs.PendingCancel Proofs.PendingFault Proofs.PendingLive Proofs.PendingBlock Proofs.PendingNoFault Proofs.PendingRefute Proofs.PendingTie.
 Local Open Scope N_scope.
 
 (* the reply slot of every call is assigned at most once and its notify function runs at most once, in every history *)
@@ -62,6 +62,12 @@ Theorem C17_fault_only_null_link : forall h, fault (fst (run init h)) = 0 \/ fau
 Proof. exact fault_only_null_link. Qed.
 Print Assumptions C17_fault_only_null_link.
 
+(* ... and the NULL timeout_link itself is unreachable as long as no thread waits (EBlock, EBlockCheck, EBlockStep)
+   for a call after that call has been cancelled ([well_behaved]: at each wait the call's cancelled flag is down) *)
+Theorem C17_no_fault_partial : forall h, nowrap h -> well_behaved init h -> fault (fst (run init h)) = 0.
+Proof. exact no_fault_partial. Qed.
+Print Assumptions C17_no_fault_partial.
+
 Theorem C17_no_fault_refuted : ~ C17_no_fault_full_statement.
 Proof. exact no_fault_refuted. Qed.
 Print Assumptions C17_no_fault_refuted.
@@ -94,6 +100,17 @@ Theorem C17_timeout_completes_once : forall h i c,
 Proof. exact timeout_completes_once. Qed.
 Print Assumptions C17_timeout_completes_once.
 
+(* ... and a blocking wait that returns (does not sleep for ever on a call without timeout, does not hit F17.3)
+   has completed the call it waited for: exactly once over the whole trace, also after the connection closed *)
+Theorem C17_block_completes_once : forall h i k,
+  let st := fst (run1 init h) in
+  fault st = 0 -> nth_error (cores st) i = Some k ->
+  returned (snd (step1 st (EBlock i))) -> fault (fst (step1 st (EBlock i))) = 0 ->
+  let tr := trace1 (h ++ [EBlock i]) in
+  count_complete i tr = 1%nat /\ count_notify i tr = b2n (k_hasnotify k).
+Proof. exact block_completes_once. Qed.
+Print Assumptions C17_block_completes_once.
+
 (* ---- non-vacuity: the hypotheses above are satisfiable, the conclusions are about real completions ---- *)
 Definition ex_h : list event := [ESend true true; EPlain; ESend false true; EPeerReply PReturn 1 7; EPeerReply PError 0 8; ERead].
 Example ex_nowrap : nowrap1 ex_h. Proof. vm_compute. reflexivity. Qed.
@@ -116,3 +133,12 @@ Example ex_threads_notify_after_other_events :
   trace [ESend true true; EPeerReply PReturn 0 1; ERead; EDispatch; ESteal 0; EFinish 0; EFinish 0] =
   [OSent (Some 1); OComplete 0 (mkMsg (KPeer PReturn) 1 1); ODispatch false; OStolen (Some (Some (mkMsg (KPeer PReturn) 1 1))); ONotify 0].
 Proof. vm_compute. reflexivity. Qed.
+Example ex_block_after_close : trace1 [ESend true true; EPeerClose; EBlock 0] =
+  [OSent (Some 1); OComplete 0 (mkMsg KNoReply 1 0); ONotify 0].
+Proof. vm_compute. reflexivity. Qed.
+Example ex_block_returns : let st := fst (run1 init [ESend true true; EPeerClose]) in
+  returned (snd (step1 st (EBlock 0))) /\ fault (fst (step1 st (EBlock 0))) = 0.
+Proof. vm_compute. split; [split; intros [H|[H|[]]]; discriminate|reflexivity]. Qed.
+Example ex_well_behaved : well_behaved init [ESend true true; EFire 0; EBlock 0; ECancel 0; EDispatch] /\ nowrap [ESend true true; EFire 0; EBlock 0; ECancel 0; EDispatch].
+Proof. split; [|vm_compute; reflexivity]. simpl. unfold well, not_cancelled. repeat split; intros i Hb; try discriminate.
+  simpl in Hb. apply Nat.eqb_eq in Hb. subst i. vm_compute. intros c H. inversion H; reflexivity. Qed.
